@@ -58,7 +58,8 @@ class OutputBuffer:
         '''Saves output to buffer (if in buffered mode), or immediately prints to stdout otherwise.'''
 
         # If we're logging only 'warn' or above, and this is an 'info', ignore message, unless always_print is True (useful for printing informational lines regardless of the level setting).
-        if (always_print is False) and (self.get_level(level) < self.__level):
+        # Note: in JSON mode, the JSON document is written as an 'info' message, so the level filter must not apply to it.
+        if (always_print is False) and (self.json is False) and (self.get_level(level) < self.__level):
             return
 
         if self.use_colors and self.colors_supported and len(s) > 0 and level != 'info':
